@@ -331,7 +331,7 @@ def _out_desc(draw, ekind, kinds):
         kind = 'elem'
     od = {'kind': kind, 'order': draw(st.sampled_from(
         ['C', 'C', 'F', 'strided', 'rev'])), 'dtype': 'match'}
-    if kind != 'x' and draw(st.integers(0, 7)) == 0:
+    if kind not in ('x', 'other') and draw(st.integers(0, 7)) == 0:
         od['dtype'] = draw(st.sampled_from(
             ['float64', 'float32', 'complex128', 'int64']))
         od['order'] = 'C'
@@ -342,9 +342,17 @@ def _axis(draw, nd, method):
     """Axis argument; 'absent' means the keyword is not passed."""
     opts = ['absent', 'int', 'neg']
     if method == 'reduce':
-        opts += ['int', 'neg', 'neg', 'tuple', 'tuple', 'none', 'none',
-                 'empty', 'bad']
+        opts = ['absent', 'absent', 'int', 'int', 'neg', 'neg', 'neg',
+                'tuple', 'tuple', 'tuple', 'tuple', 'none', 'none', 'empty']
     cls = draw(st.sampled_from(opts))
+    if draw(st.integers(0, 24)) == 0:
+        cls = 'bad'
+    if cls == 'tuple' and nd >= 2 and draw(st.booleans()):
+        # all but one axis (the sub-partition case with most ways to go wrong)
+        keep = draw(st.integers(0, nd - 1))
+        axes = [a for a in draw(st.permutations(list(range(nd))))
+                if a != keep]
+        return cls, [a - nd if draw(st.booleans()) else a for a in axes]
     if cls == 'int':
         return cls, draw(st.integers(0, nd - 1))
     if cls == 'neg':
@@ -370,6 +378,20 @@ def _kw_dtype(draw, name, dtype, p=4):
     if ok and draw(st.integers(0, 7)) != 0:
         return draw(st.sampled_from(ok))
     return draw(st.sampled_from(KW_DTYPES))
+
+
+def _thin_scalar_out(draw, desc, nd, default_none=False):
+    """Full reductions with out= need a 0-d out array, which is the region
+    of known finding C17-K5: keep one in five of those."""
+    kw = desc.get('kwargs', {})
+    if kw.get('keepdims'):
+        return
+    ax = kw.get('axis', None if default_none else 0)
+    full = ax is None or (isinstance(ax, list) and
+                          len(set(a % nd for a in ax)) == nd) or \
+        (isinstance(ax, int) and nd == 1)
+    if full and desc['out'][0] is not None and draw(st.integers(0, 4)):
+        desc['out'] = [None]
 
 
 METHODS = (['__call__'] * 7 + ['reduce'] * 5 + ['accumulate'] * 2 +
@@ -419,6 +441,8 @@ def _case(draw):
                 kw['dtype'] = kd
             desc['out'] = [draw(_out_desc(ekind, [
                 'none', 'none', 'none', 'elem', 'ndarray', 'tensor']))]
+            desc['kwargs'] = kw
+            _thin_scalar_out(draw, desc, nd, default_none=True)
         desc['kwargs'] = kw
         return desc
 
@@ -473,6 +497,8 @@ def _case(draw):
             kw['dtype'] = kd
         okinds = ['none', 'none', 'none', 'elem', 'elem', 'ndarray', 'tensor',
                   'x']
+        if uf.nin == 2 and desc['other']['form'] == 'ndarray':
+            okinds += ['other', 'other']        # arr += x
         if method == 'legacy':
             okinds = ['none', 'none', 'elem', 'ndarray']
         outs = [draw(_out_desc(ekind, okinds)) for _ in range(uf.nout)]
@@ -490,6 +516,8 @@ def _case(draw):
             kw['dtype'] = kd
         desc['out'] = [draw(_out_desc(ekind, [
             'none', 'none', 'none', 'elem', 'ndarray', 'tensor']))]
+        desc['kwargs'] = kw
+        _thin_scalar_out(draw, desc, nd)
     elif method == 'accumulate':
         cls, ax = _axis(draw, nd, 'accumulate')
         if cls != 'absent':
@@ -503,7 +531,7 @@ def _case(draw):
         cls, ax = _axis(draw, nd, 'reduceat')
         if cls != 'absent':
             kw['axis'] = ax
-        n_ax = shape[ax if cls != 'absent' else 0]
+        n_ax = shape[ax if cls in ('int', 'neg') else 0]
         desc['indices'] = draw(st.lists(st.integers(0, n_ax - 1), min_size=1,
                                         max_size=4))
         kd = _kw_dtype(draw, name, dtype)
@@ -880,7 +908,9 @@ class _Sig(object):
         self.extra = ''
 
     def __call__(self, clause, tail=''):
-        parts = ['C17', clause, self.ekind, self.method, self.dt, self.out]
+        parts = ['C17', clause, self.ekind, self.method, self.dt]
+        if self.out:
+            parts.append(self.out)
         if self.extra:
             parts.append(self.extra)
         if tail:
@@ -953,11 +983,13 @@ def _build_other(od, space, sd, x_op):
     raise HarnessError('operand form {!r}'.format(form))
 
 
-def _make_out(od, ekind, sd, x_op, shape, dtype):
+def _make_out(od, ekind, sd, x_op, shape, dtype, other_op=None):
     """(odl-side out object, reference out array, kind label)."""
     kind = od['kind']
     if kind == 'x':
         return x_op.odl, x_op.ref, 'x'
+    if kind == 'other':
+        return other_op.odl, other_op.ref, 'other'
     dt = np.dtype(dtype if od['dtype'] == 'match' else od['dtype'])
     shape = tuple(shape)
     if shape == () and kind != 'ndarray':
@@ -1138,7 +1170,10 @@ def _run_ufunc(desc):
     ref0s = None
     if np_exc is None and method != 'at':
         ref0s = ref0 if isinstance(ref0, tuple) else (ref0,)
-        sig.dt = _dtclass(in_dtype, [np.asarray(r).dtype for r in ref0s])
+        # relative to the element that handles the call (first element-typed
+        # operand): its space is the one the result is derived from
+        lead_dtype = np.dtype([o for o in ops if o.is_elem][0].odl.dtype)
+        sig.dt = _dtclass(lead_dtype, [np.asarray(r).dtype for r in ref0s])
 
     # ---- step B: out objects ---------------------------------------------
     outs_odl = outs_ref = None
@@ -1160,7 +1195,15 @@ def _run_ufunc(desc):
                 od = dict(od, kind='elem')
             if od['kind'] == 'x' and 'x' in out_labels:
                 od = dict(od, kind='ndarray')
-            o, r, lab = _make_out(od, ekind, sd, x_op, oshape, odt)
+            other_op = [o for o in ops if o is not x_op]
+            other_op = other_op[0] if other_op else None
+            if od['kind'] == 'other' and (
+                    other_op is None or 'other' in out_labels or
+                    not isinstance(other_op.odl, np.ndarray) or
+                    other_op.odl.shape != tuple(oshape)):
+                od = dict(od, kind='ndarray')
+            o, r, lab = _make_out(od, ekind, sd, x_op, oshape, odt,
+                                  other_op)
             if od['dtype'] != 'match':
                 lab += '-cast'
             outs_odl.append(o)
@@ -1612,9 +1655,9 @@ def _run_wrap(desc):
     ref = build.build_array(ad)
     order = desc.get('order_arg')
     matching = arr.dtype == dtype and arr.shape == tuple(shape)
-    sig.dt = 'same' if arr.dtype == dtype else 'chg:' + arr.dtype.kind
+    sig.dt = 'match' if arr.dtype == dtype else 'cast'
     layout = ad.get('order', 'C')
-    sig.out = 'layout=' + layout
+    sig.out = ''
     strata = ['wrap|' + ekind, 'method:wrap', 'kind:' + ekind,
               'layout:' + layout, 'wrap-dtype:' + ('match' if matching
                                                    else 'cast'),
